@@ -77,7 +77,7 @@ func c11Build(obj, dir string) (*c11Base, error) {
 		}
 		b.dev, b.size, b.sect, b.fsObj = v.Dev, v.Size, v.Sector, true
 		b.dev.SetSize(b.size)
-	case "gpt", "mbr", "gptbad":
+	case "gpt", "mbr", "gptbad", "mbrshort":
 		size := int64(100 << 20)
 		d := memdev.New(size)
 		dk, err := diskfs.OpenBackend(file.New(d, false), diskfs.WithOpenMode(diskfs.ReadWrite))
@@ -101,6 +101,11 @@ func c11Build(obj, dir string) (*c11Base, error) {
 			if _, err := diskfs.OpenBackend(file.New(d, true)); err != nil {
 				return nil, fmt.Errorf("damaged-primary GPT cannot be opened at all: %w", err)
 			}
+		}
+		if obj == "mbrshort" {
+			// the image ends inside partition 2
+			size = 60 << 20
+			d.SetSize(size)
 		}
 		b.dev, b.size = d, size
 	default:
@@ -150,6 +155,7 @@ type c11Obj struct {
 	dev  *memdev.Dev // nil on the path route
 	path string
 	done func()
+	stat func() string // route rofile: length and modification time of the backing file
 }
 
 func c11Open(b *c11Base, route string, variant int, work string) (*c11Obj, error) {
@@ -165,9 +171,44 @@ func c11Open(b *c11Base, route string, variant int, work string) (*c11Obj, error
 	case "rw":
 		o.dev = b.dev.Clone()
 		st = file.New(o.dev, false)
+	case "rofile":
+		// a private sparse copy of the image as a real file, opened O_RDWR, handed to the library as a
+		// READ-ONLY backend: whatever the library can reach through Sys() would be able to write
+		p := filepath.Join(work, fmt.Sprintf("%s-rofile-%d-%d.img", b.obj, variant, time.Now().UnixNano()))
+		f, err := os.OpenFile(p, os.O_CREATE|os.O_RDWR|os.O_EXCL, 0o644)
+		if err != nil {
+			return nil, err
+		}
+		if err := f.Truncate(b.dev.Size()); err != nil {
+			f.Close()
+			return nil, err
+		}
+		for _, pg := range b.dev.TouchedPages() {
+			off := pg * 4096
+			n := int64(4096)
+			if off+n > b.dev.Size() {
+				n = b.dev.Size() - off
+			}
+			if n > 0 {
+				f.WriteAt(b.dev.Bytes(off, n), off)
+			}
+		}
+		f.Sync()
+		old := time.Unix(1000000000, 0)
+		os.Chtimes(p, old, old) // any later write or truncate moves the modification time away from this
+		o.path = p
+		o.stat = func() string {
+			st, err := os.Stat(p)
+			if err != nil {
+				return "err:" + err.Error()
+			}
+			return fmt.Sprintf("%d@%d", st.Size(), st.ModTime().UnixNano())
+		}
+		o.done = func() { f.Close(); os.Remove(p) }
+		st = file.New(f, true)
 	case "ropath":
 		// a private copy of the image file, opened read-only by path
-		p := filepath.Join(work, fmt.Sprintf("%s-%d.img", b.obj, time.Now().UnixNano()))
+		p := filepath.Join(work, fmt.Sprintf("%s-%d-%d.img", b.obj, variant, time.Now().UnixNano()))
 		if err := os.Link(b.path, p); err != nil {
 			return nil, err
 		}
@@ -347,6 +388,12 @@ func c11Do(o *c11Obj, b *c11Base, op string) (res string) {
 		case "CreateFilesystem":
 			_, err := o.dk.CreateFilesystem(disk.FilesystemSpec{Partition: 2, FSType: filesystem.TypeFat32, VolumeLabel: "NEW"})
 			e(err)
+		case "CreateExt4":
+			_, err := o.dk.CreateFilesystem(disk.FilesystemSpec{Partition: 2, FSType: filesystem.TypeExt4, VolumeLabel: "NEW"})
+			e(err)
+		case "CreateFat16":
+			_, err := o.dk.CreateFilesystem(disk.FilesystemSpec{Partition: 2, FSType: filesystem.TypeFat16, VolumeLabel: "NEW"})
+			e(err)
 		case "GetPartitionTable":
 			_, err := o.dk.GetPartitionTable()
 			e(err)
@@ -382,7 +429,7 @@ func fileSHA(p string) string {
 }
 
 func C11(c *core.Ctx) {
-	c.Rule = "case = one call sequence of ReadOnly.tla on one (object, route): objects FAT12/16/32, ext4, ISO9660, squashfs volumes and GPT / MBR disks with a FAT32 partition; routes: backend created read-only, backend whose Writable() fails over storage that would accept writes, image file opened read-only by path (OpenFromPath / diskfs.Open(ReadOnly)), and read-write (reads must still not write; finalized ISO/squashfs must still refuse); calls: 13 mutating and 6 reading filesystem entry points, 3 + 3 disk entry points; every sequence of length <= D (quick 2, thorough 3) enumerated by TLC; after every call: result class, image bytes changed, WriteAt attempts that reached the device, and the view through the LIVE object compared with the view before the call; non-trivial = every sequence (distinct key = object/route/sequence)"
+	c.Rule = "case = one call sequence of ReadOnly.tla on one (object, route): objects FAT12/16/32, ext4, ISO9660, squashfs volumes and GPT / MBR disks with a FAT32 partition (also: primary GPT array damaged, image shorter than its last partition); routes: backend created read-only, backend whose Writable() fails over storage that would accept writes, read-only backend over a real file whose descriptor is writable (length and modification time compared after every call), image file opened read-only by path (OpenFromPath / diskfs.Open(ReadOnly)), and read-write (reads must still not write; finalized ISO/squashfs must still refuse); calls: 13 mutating and 6 reading filesystem entry points, 5 + 3 disk entry points (CreateFilesystem as FAT32, FAT16 and ext4); every sequence of length <= D (quick 2, thorough 3) enumerated by TLC; after every call: result class, image bytes changed, WriteAt attempts that reached the device, and the view through the LIVE object compared with the view before the call; non-trivial = every sequence (distinct key = object/route/sequence)"
 	c.Assumptions = []string{"on the path route the kernel enforces O_RDONLY; the image file is hashed at the end of the sequence", "view = full tree walk with content hashes, link targets and label (filesystems) or partition table plus the listing of partition 1 (disks)"}
 	mc, err := tlcRun("ReadOnly_MC", "ReadOnly_MC.cfg")
 	if err != nil || !mc.OK {
@@ -440,7 +487,7 @@ func C11(c *core.Ctx) {
 	defer os.RemoveAll(work)
 	bases := map[string]*c11Base{}
 	baseSHA := map[string]string{}
-	for _, o := range []string{"fat12", "fat16", "fat32", "ext4", "iso", "squashfs", "gpt", "mbr", "gptbad"} {
+	for _, o := range []string{"fat12", "fat16", "fat32", "ext4", "iso", "squashfs", "gpt", "mbr", "gptbad", "mbrshort"} {
 		b, err := c11Build(o, work)
 		if err != nil {
 			c.Broken("base %s: %v", o, err)
@@ -481,7 +528,17 @@ func C11(c *core.Ctx) {
 				mark = o.dev.Mark()
 				before = o.dev.SHA(0, o.dev.Size())
 			}
+			st0 := ""
+			if o.stat != nil {
+				st0 = o.stat()
+			}
 			ev["res"] = c11Do(o, b, op)
+			if o.stat != nil {
+				if st1 := o.stat(); st1 != st0 {
+					ev["changed"] = true
+					ev["file_before_after"] = st0 + " -> " + st1
+				}
+			}
 			if o.dev != nil {
 				ops := o.dev.Since(mark)
 				ev["writes"] = memdev.WriteAttempts(ops)
